@@ -153,6 +153,8 @@ def handle : List String → Option String
   | ["show", name] => do
     let m ← fmtOf name none none
     some (m.fmt.render ++ " " ++ boolOut m.exact)
+  | ["ticketver", c, e, m, n] =>
+    some (toString (Msgs.ticketVersion (c == "1") (e == "1") (m == "1") (n == "1")))
   | ["names"] => some (",".intercalate (Msgs.table.map (·.1)))
   | ["wf", name] => do
     let m ← fmtOf name none none
